@@ -12,6 +12,10 @@ STACKS = [("map", "retry"), ("retry", "map", "poll", "cancel_on_shutdown"), ("re
 
 def _workloads(layers):
     w = ["idle", "queued", "running", "done"]
+    if layers and not any(l in ("retry", "throttle", "asyncio") for l in layers):
+        # (retry / throttle call the delegate from their own worker thread: a delegate whose
+        # submit() raises is then an environment fault outside this property)
+        w.append("submit_faulted")
     if "retry" in layers:
         w.append("between_retries")
     if "poll" in layers:
@@ -76,6 +80,21 @@ def body(mc, p):
 
     failing = st.script("callable", [("raise", E), ("ret", "ok")])
 
+    if wl == "submit_faulted" and st.base is not None:
+        # a submit() whose delegate raises, on a thread that stays alive afterwards
+        st.base.fail_submits = 1
+
+        def faulter():
+            try:
+                ex.submit(plain)
+                mc.emit("fault.submit", out="accepted")
+            except TypeError:
+                mc.emit("fault.submit", out="TypeError")
+            except Exception as e:
+                mc.emit("fault.submit", out=type(e).__name__)
+            mc.wait_until(lambda: release[0])
+        harness_threads.add(mc.spawn(faulter, "faulter", client=False))
+        mc.sleep(0.5)
     if wl in ("queued", "throttled", "polling", "done"):
         ex.submit(plain)
     elif wl == "running":
